@@ -5,6 +5,7 @@ the simulator's scripted wall time.  Mode 1: wall time only moves between clock 
 reference clock predicts every read exactly.  Mode 2 (fault): wall time also moves between the
 reads *inside* one operation; only the relaxed invariants are asserted.
 """
+import warnings
 from fractions import Fraction as F
 
 from sim.engine import Result, fp
@@ -149,8 +150,16 @@ def _run_exact(res, ops, wall, tier):
         elif op == 'set':
             arg = _set_arg(ops, t)
             raised = False
+            deprecated = ops.flag(1, 4)
             try:
-                clock.time = float(arg)
+                if deprecated:
+                    # the deprecated but supported way: assigning Interpreter.time moves the clock (and nothing else)
+                    with warnings.catch_warnings():
+                        warnings.simplefilter('ignore')
+                        interp.time = float(arg)
+                    res.stats['clock_set_through_the_deprecated_interpreter_time_setter'] += 1
+                else:
+                    clock.time = float(arg)
             except ValueError:
                 raised = True
             here = trace + [(op, float(arg), float(d))]
